@@ -105,7 +105,7 @@ def make_chain(rng, feature_names):
       names.append(new)
       descr.append(f'derive:{new}=idx*{mult}+{j + 1}')
     elif kind == 1:
-      cand = [n for n in names if n != 'idx' and not n.startswith('bytes')]
+      cand = [n for n in names if n != 'idx' and not n.startswith(('bytes', 's5', 'u3'))]
       if not cand:
         continue
       tgt = cand[int(rng.randint(len(cand)))]
